@@ -3,10 +3,15 @@ import ScyllaVerif.Model.Ring
 import ScyllaVerif.Model.Replicas
 import ScyllaVerif.Model.Plan
 import ScyllaVerif.Model.Sharding
+import ScyllaVerif.Model.Routing
 import ScyllaVerif.Drive.Topology
 /-! Line-protocol driver for C05 (default load-balancing policy, `Plan`).
 
-Case: `plan[.<tag>] <topology> <keyspace strategies> <config> <request> <samples>` (topology syntax: `Drive/Topology.lean`;
+Case: `plan[.<tag>] <topology> <keyspace strategies> <config> <request> <samples>` or
+`tplan[.<tag>] <topology> <keyspace strategies> <config> <request> <tablet> <samples>` (topology syntax: `Drive/Topology.lean`;
+`tplan`: the request's table `(k<ks>, t)` is TABLET based - the replicas come from the tablet map, the ring is not
+consulted; `<tablet>` = `-` (no tablet yet) or the replicas `id@shard,…` of the one tablet covering every token, a node
+possibly twice with different shards; the model is C12's `pickT` / `fallbackT` of `Model/Routing.lean`;
 the flags word of a peer contains `d` = disabled by the host filter, `x` = no usable connection, and optionally
 `s<nr_shards>.<msb_ignore>` = the node's sharder; `samples` > 0).
 ```
@@ -35,6 +40,7 @@ the case (one policy object = one fixed seed).  Otherwise `REJECT …`. -/
 namespace ScyllaVerif.Drive.C05
 open ScyllaVerif.Util ScyllaVerif.Ring ScyllaVerif.Replicas ScyllaVerif.Plan ScyllaVerif.Drive.Topology
 open ScyllaVerif.Sharding (shardOfImpl)
+open ScyllaVerif.Routing (SRep pickT fallbackT planT replicaGroupsT rqNoToken tokenAware)
 
 def parsePref (s : String) : Option Pref :=
   if s == "a" then some .any
@@ -134,34 +140,39 @@ def showObsList (l : List Obs) : String := if l.isEmpty then "-" else ",".interc
 
 def showPick (p : Option Obs) : String := match p with | none => "-" | some o => showObs o
 
-/-- First occurrences that are not in `seen`. -/
-def dedupIds : List Nat → List Nat → List Nat
+/-- The comparator on observations (`targetEq`). -/
+def obsEq (a b : Obs) : Bool :=
+  a.1 == b.1 && (match a.2, b.2 with | some x, some y => x == y | _, _ => true)
+
+/-- `unique_by` on observations: first occurrences not equal (comparator) to a seen one. -/
+def dedupO : List Obs → List Obs → List Obs
   | [], _ => []
-  | a :: l, seen => if seen.contains a then dedupIds l seen else a :: dedupIds l (a :: seen)
+  | a :: l, seen => if seen.any (obsEq · a) then dedupO l seen else a :: dedupO l (a :: seen)
 
 def sortNat (l : List Nat) : List Nat := l.mergeSort (fun a b => decide (a ≤ b))
 
-def sortObs (l : List Obs) : List Obs := l.mergeSort (fun a b => decide (a.1 ≤ b.1))
+def sortObs (l : List Obs) : List Obs :=
+  l.mergeSort (fun a b => decide (a.1 < b.1 ∨ (a.1 = b.1 ∧ a.2.getD 0 ≤ b.2.getD 0)))
 
-/-- Draws `ks` with `shuffleWith ks l = p` for a permutation `p` of the duplicate-free `l`. -/
+/-- Draws `ks` with `shuffleWith ks l = p` for a permutation `p` of `l`. -/
 def unshuffle {α : Type} [BEq α] : List α → List α → List Nat
   | [], _ => []
   | a :: l, p => p.idxOf a :: unshuffle l (p.erase a)
 
 structure RecState where
-  seen : List Nat
-  rest : List Nat
+  seen : List Obs
+  rest : List Obs
   shufs : List (List Nat)
   rots : List Nat
 
-/-- Reconstructs the random choices of `fallback` from the observed order of host ids (`seen0` = ids to treat as
-already seen: the picked target of a plan).  `groupsAt[k]` = the model's groups under rotation offset `k` and no
-shuffle.  The result is only a proposal: the caller runs the model with it and compares. -/
-def recoverFb (groupsAt : List (List (List Target))) (lwt : Bool) (obsIds : List Nat) (seen0 : List Nat) : RhoFb :=
+/-- Reconstructs the random choices of `fallback` from the observed targets (`seen0` = targets to treat as already
+seen: the picked target of a plan).  `groupsAt[k]` = the model's eight groups under rotation offset `k` and no shuffle.
+The result is only a proposal: the caller runs the model with it and compares. -/
+def recoverFb (groupsAt : List (List (List Target))) (lwt : Bool) (obs : List Obs) (seen0 : List Obs) : RhoFb :=
   let base := groupsAt.headD []
   let step := fun (st : RecState) (i : Nat) =>
     let gb := base.getD i []
-    let exp := dedupIds (gb.map (·.1.id)) st.seen
+    let exp := dedupO (gb.map obsOf) st.seen
     let block := st.rest.take exp.length
     let rest := st.rest.drop exp.length
     let seen := st.seen ++ exp
@@ -169,16 +180,16 @@ def recoverFb (groupsAt : List (List (List Target))) (lwt : Bool) (obsIds : List
       let shuf : List Nat :=
         if lwt then []
         else
-          let full := gb.filter (fun t => !block.contains t.1.id) ++
-            block.filterMap (fun id => gb.find? (fun t => t.1.id == id))
-          unshuffle gb full
+          let blockT := block.filterMap (fun o => gb.find? (fun t => obsOf t == o))
+          let others := blockT.foldl (fun acc t => acc.erase t) gb
+          unshuffle gb (others ++ blockT)
       { seen := seen, rest := rest, shufs := st.shufs ++ [shuf], rots := st.rots }
     else if i < 6 then
       let k := ((List.range groupsAt.length).find? (fun k =>
-        dedupIds (((groupsAt.getD k []).getD i []).map (·.1.id)) st.seen == block)).getD 0
+        dedupO (((groupsAt.getD k []).getD i []).map obsOf) st.seen == block)).getD 0
       { seen := seen, rest := rest, shufs := st.shufs, rots := st.rots ++ [k] }
     else { seen := seen, rest := rest, shufs := st.shufs, rots := st.rots }
-  let st := (List.range 8).foldl step ⟨seen0, obsIds, [], []⟩
+  let st := (List.range 8).foldl step ⟨seen0, obs, [], []⟩
   ⟨st.shufs.getD 0 [], st.shufs.getD 1 [], st.shufs.getD 2 [], st.rots.getD 0 0, st.rots.getD 1 0, st.rots.getD 2 0⟩
 
 /-- Do the model's groups leave no room for a random choice?  (see the module comment) -/
@@ -187,11 +198,11 @@ def modelDeterministic (base : List (List Target)) (lwt : Bool) : Bool :=
   let headOk := match firstNonEmpty with
     | none => true
     | some f => (base.getD f []).length ≤ 1 || (decide (f < 3) && lwt)
-  let rec go (i : Nat) (fuel : Nat) (seen : List Nat) : Bool :=
+  let rec go (i : Nat) (fuel : Nat) (seen : List Obs) : Bool :=
     match fuel with
     | 0 => true
     | fuel + 1 =>
-      let exp := dedupIds ((base.getD i []).map (·.1.id)) seen
+      let exp := dedupO ((base.getD i []).map obsOf) seen
       (exp.length ≤ 1 || (decide (i < 3) && lwt) || decide (6 ≤ i)) && go (i + 1) fuel (seen ++ exp)
   headOk && go 0 8 []
 
@@ -224,6 +235,87 @@ def parseSample (s : String) : Option Sample :=
     | _, _, _ => none
   | _ => none
 
+/-- The policy of one case as the checker needs it: `pick`, `fallback`, the eight groups of `fallback` (for the
+reconstruction of the random choices only). -/
+structure PolicyM where
+  pick : RhoPick → Option Target
+  fallback : RhoFb → List Target
+  groups : RhoFb → List (List Target)
+
+/-- Prints the model's line for one case and judges the implementation's samples (see the module comment). -/
+def check (ps : List (Peer × String)) (pm : PolicyM) (lwt shuffle : Bool) (n nS : Nat) (impl : String) : String :=
+  let ρp0 : RhoPick := ⟨0, 0, 0, 0, 0, 0, 0, 0, 0, 0, 0⟩
+  let ρf0 : RhoFb := ⟨[], [], [], 0, 0, 0⟩
+  -- what does not depend on the random choices, from running the model's state machine at the zero choices
+  let fb0 := pm.fallback ρf0
+  let plan0 := planRun (pm.pick ρp0) fb0 (fb0.length + 3) .created
+  if plan0 != planOf (pm.pick ρp0) fb0 then "MODEL-INCONSISTENT planRun/planOf" else
+  let setIds := sortNat (plan0.map (·.1.id))
+  let reps := (fb0.filter (·.2.isSome)).map obsOf
+  let lwtS := if lwt then showObsList reps else "x"
+  let groupsAt := (List.range n).map (fun k => pm.groups ⟨[], [], [], k, k, k⟩)
+  let replicaObs : List Obs := (((groupsAt.headD []).take 3).flatten).map obsOf
+  let ws := words impl
+  let implDet := ((ws.find? (·.startsWith "det=")).getD "det=?")
+  let detS := if modelDeterministic (groupsAt.headD []) lwt then "det=" ++ natList (plan0.map (·.1.id)) else implDet
+  let pre := s!"set={natList setIds} rep={showObsList (sortObs reps)} lwt={lwtS} {detS} |"
+  -- the possible answers of `pick`, each with random choices that produce it
+  let picks : List (RhoPick × Option Target) :=
+    ((List.range n).flatMap (fun i => (List.range n).map (fun j =>
+      let ρ : RhoPick := ⟨i, j, i, j, i, j, i, i, i, i, i⟩
+      (ρ, pm.pick ρ)))).foldl
+      (fun acc x => if acc.any (fun y => y.2 == x.2) then acc else acc ++ [x]) []
+  let fbOk (f : List Obs) : Bool := (pm.fallback (recoverFb groupsAt lwt f [])).map obsOf == f
+  let planOk (l : List (Nat × Nat)) : Bool :=
+    -- a planned target is "supplied by the policy" iff it is one of the replica groups' targets
+    let asObs : List Obs := l.map (fun o => if replicaObs.contains (o.1, some o.2) then (o.1, some o.2) else (o.1, none))
+    picks.any (fun (ρp, pk) =>
+      let headOk := match pk, asObs with
+        | some t, h :: _ => h == obsOf t
+        | some _, [] => false
+        | none, _ => true
+      headOk &&
+        (let ρf := match pk with
+           | some t => recoverFb groupsAt lwt (asObs.drop 1) [obsOf t]
+           | none => recoverFb groupsAt lwt asObs []
+         let fb := pm.fallback ρf
+         let r := planRun (pm.pick ρp) fb (fb.length + 3) .created
+         r == planOf (pm.pick ρp) fb && matchPlan ps r l))
+  match ws.dropWhile (· != "|") with
+  | [] => pre ++ " REJECT no-samples-part"
+  | _ :: sampleWords =>
+    if sampleWords.length != nS then pre ++ s!" REJECT expected-{nS}-samples-got-{sampleWords.length}" else
+    match sampleWords.mapM parseSample with
+    | none => pre ++ " REJECT unparsable-sample"
+    | some samples =>
+      let verdicts := (samples.zip sampleWords).map (fun (sm, w) =>
+        if !(picks.any (fun p => p.2.map obsOf == sm.pick)) then
+          some (w ++ " pick-not-in " ++ " ".intercalate (picks.map (fun p => showPick (p.2.map obsOf))))
+        else if !fbOk sm.fb then some (w ++ " fallback-not-producible e.g. " ++ showObsList (fb0.map obsOf))
+        else if !planOk sm.plan then some (w ++ " plan-not-producible")
+        else none)
+      -- replica shuffling disabled: one fixed seed per policy, so the replica choices repeat
+      let fixedPart (sm : Sample) : Option Obs × List Obs × List (Nat × Nat) :=
+        (sm.pick.filter (·.2.isSome), sm.fb.filter (·.2.isSome),
+          sm.plan.filter (fun o => replicaObs.contains (o.1, some o.2)))
+      let shuffleOk := shuffle || match samples with
+        | [] => true
+        | s0 :: rest => rest.all (fun sm => fixedPart sm == fixedPart s0)
+      match verdicts.find? (·.isSome) with
+      | some (some why) => pre ++ " REJECT " ++ why
+      | _ =>
+        if !shuffleOk then pre ++ " REJECT shuffling-disabled-but-replica-choices-vary"
+        else pre ++ String.join (sampleWords.map (" " ++ ·))
+
+/-- The tablet's replicas on the case line: `-` = no tablet, else `id@shard,…` (known host ids only). -/
+def parseTablet (ps : List (Peer × String)) (s : String) : Option (List SRep) :=
+  if s == "-" then some []
+  else match (s.splitOn ",").mapM parseObs with
+    | none => none
+    | some l => l.mapM (fun o => match o.2, ps.find? (fun p => p.1.node.id == o.1) with
+      | some sh, some p => some (p.1.node, sh)
+      | _, _ => none)
+
 def run (case impl : String) : String :=
   match words case with
   | [head, topo, kss, cfg, req, nSamples] =>
@@ -232,69 +324,28 @@ def run (case impl : String) : String :=
     | some ps, some ks, some (cfg, shuffle), some rq, some nS =>
       if nS == 0 || ps.any (fun p => (parseSharder p.2).isNone) then "bad-case" else
       let cl := mkCluster ps ks rq.token
-      let lwt := rq.routeAsLwt
-      let n := (allNodes cl).length + 1
-      let ρp0 : RhoPick := ⟨0, 0, 0, 0, 0, 0, 0, 0, 0, 0, 0⟩
-      let ρf0 : RhoFb := ⟨[], [], [], 0, 0, 0⟩
-      -- what does not depend on the random choices, from running the model's state machine at the zero choices
-      let fb0 := fallback cl cfg rq ρf0
-      let plan0 := planRun (pick cl cfg rq ρp0) fb0 (fb0.length + 3) .created
-      if plan0 != plan cl cfg rq ρp0 ρf0 then "MODEL-INCONSISTENT planRun/planOf" else
-      let setIds := sortNat (plan0.map (·.1.id))
-      let reps := (fb0.filter (·.2.isSome)).map obsOf
-      let repIds := reps.map (·.1)
-      let lwtS := if lwt then showObsList reps else "x"
-      let groupsAt := (List.range n).map (fun k => fallbackGroups cl cfg rq ⟨[], [], [], k, k, k⟩)
-      let ws := words impl
-      let implDet := ((ws.find? (·.startsWith "det=")).getD "det=?")
-      let detS := if modelDeterministic (groupsAt.headD []) lwt then "det=" ++ natList (plan0.map (·.1.id)) else implDet
-      let pre := s!"set={natList setIds} rep={showObsList (sortObs reps)} lwt={lwtS} {detS} |"
-      -- the possible answers of `pick`, each with random choices that produce it
-      let picks : List (RhoPick × Option Target) :=
-        ((List.range n).flatMap (fun i => (List.range n).map (fun j =>
-          let ρ : RhoPick := ⟨i, j, i, j, i, j, i, i, i, i, i⟩
-          (ρ, pick cl cfg rq ρ)))).foldl
-          (fun acc x => if acc.any (fun y => y.2 == x.2) then acc else acc ++ [x]) []
-      let fbOk (f : List Obs) : Bool :=
-        (fallback cl cfg rq (recoverFb groupsAt lwt (f.map (·.1)) [])).map obsOf == f
-      let planOk (l : List (Nat × Nat)) : Bool :=
-        let ids := l.map (·.1)
-        picks.any (fun (ρp, pk) =>
-          let headOk := match pk, ids with
-            | some t, h :: _ => h == t.1.id
-            | some _, [] => false
-            | none, _ => true
-          headOk &&
-            (let ρf := match pk with
-               | some t => recoverFb groupsAt lwt (ids.drop 1) [t.1.id]
-               | none => recoverFb groupsAt lwt ids []
-             let fb := fallback cl cfg rq ρf
-             let r := planRun pk fb (fb.length + 3) .created
-             r == plan cl cfg rq ρp ρf && matchPlan ps r l))
-      match ws.dropWhile (· != "|") with
-      | [] => pre ++ " REJECT no-samples-part"
-      | _ :: sampleWords =>
-        if sampleWords.length != nS then pre ++ s!" REJECT expected-{nS}-samples-got-{sampleWords.length}" else
-        match sampleWords.mapM parseSample with
-        | none => pre ++ " REJECT unparsable-sample"
-        | some samples =>
-          let verdicts := (samples.zip sampleWords).map (fun (sm, w) =>
-            if !(picks.any (fun p => p.2.map obsOf == sm.pick)) then
-              some (w ++ " pick-not-in " ++ " ".intercalate (picks.map (fun p => showPick (p.2.map obsOf))))
-            else if !fbOk sm.fb then some (w ++ " fallback-not-producible e.g. " ++ showObsList (fb0.map obsOf))
-            else if !planOk sm.plan then some (w ++ " plan-not-producible")
-            else none)
-          -- replica shuffling disabled: one fixed seed per policy, so the replica choices repeat
-          let fixedPart (sm : Sample) : Option Obs × List Obs × List Nat :=
-            (sm.pick.filter (·.2.isSome), sm.fb.filter (·.2.isSome), (sm.plan.map (·.1)).filter (repIds.contains ·))
-          let shuffleOk := shuffle || match samples with
-            | [] => true
-            | s0 :: rest => rest.all (fun sm => fixedPart sm == fixedPart s0)
-          match verdicts.find? (·.isSome) with
-          | some (some why) => pre ++ " REJECT " ++ why
-          | _ =>
-            if !shuffleOk then pre ++ " REJECT shuffling-disabled-but-replica-choices-vary"
-            else pre ++ String.join (sampleWords.map (" " ++ ·))
+      check ps ⟨pick cl cfg rq, fallback cl cfg rq, fallbackGroups cl cfg rq⟩ rq.routeAsLwt shuffle
+        ((allNodes cl).length + 1) nS impl
+    | _, _, _, _, _ => "bad-case"
+  | [head, topo, kss, cfg, req, tablet, nSamples] =>
+    if !(head == "tplan" || head.startsWith "tplan.") then "bad-case" else
+    match parseTopologyEx topo, parseStrategies kss, parseConfig cfg, parseRequest req, nSamples.toNat? with
+    | some ps, some ks, some (cfg, shuffle), some rq, some nS =>
+      let ksOk := match rq.table with | some k => decide (k < ks.length) | none => false
+      match parseTablet ps tablet with
+      | none => "bad-case"
+      | some reps =>
+        if nS == 0 || !ksOk || ps.any (fun p => (parseSharder p.2).isNone) then "bad-case" else
+        let cl := mkCluster ps ks rq.token
+        -- `replicas_for_token` / `dc_replicas_for_token` of the one tablet: the list, or its members of one datacenter
+        let V : Option Nat → List SRep := fun dc => match dc with
+          | none => reps
+          | some d => reps.filter (fun r => r.1.dc == some d)
+        let groups : RhoFb → List (List Target) := fun ρ =>
+          (if tokenAware cl cfg rq then replicaGroupsT cl cfg rq V ρ else [[], [], []]) ++
+            (fallbackGroups cl cfg (rqNoToken rq) ρ).drop 3
+        check ps ⟨pickT cl cfg rq V, fallbackT cl cfg rq V, groups⟩ rq.routeAsLwt shuffle
+          ((allNodes cl).length + reps.length + 1) nS impl
     | _, _, _, _, _ => "bad-case"
   | _ => "bad-case"
 
